@@ -80,6 +80,10 @@ func getVarSymbolByName(name string) (symbol *gosym.Sym, err error) {
 // LookupSym returns the text, data, or bss symbol with the given name,
 // or nil if no such symbol is found.
 func lookupSym(t *gosym.Table, name string) *gosym.Sym {
+	// externally linked binaries contain unnamed (section / file) symbols: an empty name denotes no variable
+	if name == "" {
+		return nil
+	}
 	// TODO(austin) Maybe make a map
 	for i := range t.Syms {
 		s := &t.Syms[i]
